@@ -194,8 +194,22 @@ def _guard_shape(prog, eff, chk, A5):
     if not ctor or not dtor or not commit:
         raise AnalysisBroken('sqlite_transaction: constructor / destructor / commit not found')
 
+    def role(st):
+        """begin / commit / rollback role of a statement; the savepoint form (SAVEPOINT x /
+        RELEASE x / ROLLBACK TO x followed by RELEASE x) is accepted as equivalent."""
+        if st is None:
+            return None
+        t = st.text().upper()
+        if st.kind == 'begin' or t.startswith('SAVEPOINT'):
+            return 'begin'
+        if st.kind == 'commit' or t.startswith('RELEASE'):
+            return 'commit'
+        if st.kind == 'rollback':
+            return 'rollback-to' if ' TO ' in (' ' + t + ' ') else 'rollback'
+        return st.kind
+
     def kinds(f):
-        return [(effects.classify(s.stored_in), s.stored_in.kind if s.stored_in else None, s)
+        return [(effects.classify(s.stored_in), role(s.stored_in), s)
                 for s in eff.sites(f)]
     # constructor
     for f in ctor:
@@ -217,7 +231,7 @@ def _guard_shape(prog, eff, chk, A5):
             inner_sites = [s for s in eff.sites(f) if any(y is s.node for y in walk(c[1]))]
             outer_sites = [s for s in eff.sites(f) if s not in inner_sites]
             if neg and names == ['committed_'] and not n.get('hasElse') and not outer_sites and \
-                    [s.stored_in.kind for s in inner_sites] == ['rollback']:
+                    [role(s.stored_in) for s in inner_sites] in (['rollback'], ['rollback-to', 'commit']):
                 ok = True
     if ok:
         chk.ok(A5, 'destructor issues ROLLBACK iff !committed_', locstr(f.node))
@@ -230,7 +244,7 @@ def _guard_shape(prog, eff, chk, A5):
     for st in children(f.body):
         s = [x for x in eff.sites(f) if any(y is x.node for y in walk(st))]
         if s:
-            seq.append(('stmt', s[0].stored_in.kind))
+            seq.append(('stmt', role(s[0].stored_in)))
             continue
         for x in walk(st):
             if x.get('kind') == 'BinaryOperator' and x.get('opcode') == '=':
